@@ -984,8 +984,14 @@ func (bc *BlockChain) insert(block *types.Block) {
 }
 
 func (bc *BlockChain) updateHeadBlock(block *types.Block) {
-	rawdb.WriteCanonicalHash(bc.db, block.Hash(), block.NumberU64())
-	rawdb.WriteHeadBlockHash(bc.db, block.Hash())
+	// number->hash and the head marker change together: killed between the two separate writes, the node
+	// restarted with the old head but with its number already mapped to the new block.
+	headBatch := bc.db.NewBatch()
+	rawdb.WriteCanonicalHash(headBatch, block.Hash(), block.NumberU64())
+	rawdb.WriteHeadBlockHash(headBatch, block.Hash())
+	if err := headBatch.Write(); err != nil {
+		logging.Error("write head block failed", "number", block.NumberU64(), "hash", block.Hash().String(), "err", err)
+	}
 
 	bc.currentBlock.Store(block)
 
